@@ -1028,9 +1028,21 @@ class Variable(CanBehaveLikeAVariable[T]):
     def _generate_combinations_for_child_vars_values_(
         self, sources: Optional[Dict[int, HashedValue]] = None
     ):
-        yield from generate_combinations(
-            {k: var._evaluate__(sources) for k, var in self._child_vars_.items()}
-        )
+        """
+        Evaluate the child variables one after the other, each under the bindings produced by the ones before it, such
+        that arguments which refer to the same variable (e.g., x.a and x.b) take their values from the same value of it.
+        """
+
+        def generate(child_vars, bindings, values):
+            if not child_vars:
+                yield dict(values)
+                return
+            (name, var), remaining_child_vars = child_vars[0], child_vars[1:]
+            for value in var._evaluate__(bindings):
+                values[name] = value
+                yield from generate(remaining_child_vars, value.bindings, values)
+
+        yield from generate(list(self._child_vars_.items()), sources or {}, {})
 
     def _process_output_and_update_values_(
         self, instance: Any, kwargs: Dict[str, OperationResult]
